@@ -5,6 +5,7 @@
 //! indices 0..=33 are the 34 known units in declaration order, 34 is `None`,
 //! 35/36 are `Unknown` with a symbolic interner key, 37..=40 are complex units.
 use crate::interner::verif_kani_support::interned_from_key;
+pub(crate) use super::conversion::verif_kani_table::{compat_class_model, compat_set_contains_model, table_model, TABLE_MODEL_ARMS};
 
 pub(crate) const N_KNOWN: u8 = 34;
 pub(crate) const IDX_NONE: u8 = 34;
